@@ -43,10 +43,10 @@ def gaf_reader(ctx):
         return
     from . import c17
 
-    c17.r17_1(ctx)
-    c17.r17_5(ctx)
-    r17_6(ctx)
-    r16_9(ctx)
+    ctx.run(c17.r17_1)
+    ctx.run(c17.r17_5)
+    ctx.run(r17_6)
+    ctx.run(r16_9)
 
 
 def _reader_class(repo, rule):
@@ -208,10 +208,10 @@ def tag_parser(ctx):
     schema, extras = gaf_schema(ctx.repo, "R16.1")
     pf, loop = tag_loop(ctx, "R16.1")
     info = tag_regex_info(pf, loop, "R16.1")
-    c16.r16_1(ctx, pf, loop, info)
-    c16.r16_2(ctx, pf, loop)
-    c16.r16_3_6(ctx, pf, loop, info, report_repeats=False)
-    c16.r16_8(ctx, extras)
+    ctx.run(c16.r16_1, pf, loop, info)
+    ctx.run(c16.r16_2, pf, loop)
+    ctx.run(c16.r16_3_6, pf, loop, info, report_repeats=False)
+    ctx.run(c16.r16_8, extras)
 
 
 # ---------------------------------------------------------------------------------------------
@@ -228,11 +228,11 @@ def graph_loader(ctx):
     from . import gfa_common as gc
 
     g = gc.build(ctx, "R07.4")
-    c06.r06_6(ctx)
-    c07.r07_4(ctx, g)
-    c07.r07_10(ctx, g)
-    c07.r07_11(ctx, g)
-    r07_12(ctx, g)
+    ctx.run(c06.r06_6)
+    ctx.run(c07.r07_4, g)
+    ctx.run(c07.r07_10, g)
+    ctx.run(c07.r07_11, g)
+    ctx.run(r07_12, g)
 
 
 def r07_12(ctx, g):
@@ -324,7 +324,7 @@ def contig_paths(ctx):
         return
     from . import c03
 
-    c03.r03_7(ctx)
+    ctx.run(c03.r03_7)
 
 
 def index_build(ctx):
@@ -335,14 +335,14 @@ def index_build(ctx):
     run = c03.index_run(ctx, "R03")
     ctx.analysed_func(run)
     info = c03.r03_1(ctx, run)
-    c03.r03_2(ctx, run, info)
-    c03.r03_3(ctx, run, info)
-    c03.r03_4(ctx, run)
-    c03.r03_5(ctx, run, info)
-    c03.r03_6(ctx, run, info)
+    ctx.run(c03.r03_2, run, info)
+    ctx.run(c03.r03_3, run, info)
+    ctx.run(c03.r03_4, run)
+    ctx.run(c03.r03_5, run, info)
+    ctx.run(c03.r03_6, run, info)
     from . import c17
 
-    c17.r17_7(ctx)
+    ctx.run(c17.r17_7)
 
 
 # ---------------------------------------------------------------------------------------------
